@@ -443,7 +443,7 @@ def _candidates(case):
         if spec["platform"]:
             yield _with(case, platform=None, pkgvars=dict(spec["pkgvars"], pg={}),
                         envs={"default": spec["envs"].get("default", {})})
-    else:
+    elif spec["kind"] == "dsl":
         if len(spec["main"]) > 1:
             yield _with(case, main=spec["main"][:-1])
         if spec["subs"] and not any(s["t"][0] == "w" for s in spec["main"]):
